@@ -120,6 +120,22 @@ static void setup_trunc(Runner &r, const Tier &t) {
         if (p.kind == 1) ts.t.erase(tag); else if (p.kind == 0) ts.t[tag].resize(p.len); else { for (uint32_t k = 0; k < p.len; ++k) ts.t[tag].push_back(uint8_t(0xA5 + k)); }
         for (unsigned o : { 0u, 7u }) try_font(i, ts, o, c, s.name + " " + tagstr(tag) + (p.kind == 0 ? " prefix " : p.kind == 1 ? " absent " : " garbage ") + std::to_string(p.len), o == 0 && ts.t.begin()->second.size() < (1u << 20)); };
 }
+
+// ---- truncation made consistent with one field: the table loses its last c bytes AND one of its fields is lowered by c
+// (a length / count / offset field that described the extent up to the table end now matches the shorter table)
+struct TFPos { int seed, tag; uint32_t off; uint8_t w; }; static std::vector<TFPos> g_tf;
+static void setup_truncfield(Runner &r, const Tier &t) {
+    load_seeds(t.thorough); g_tf.clear();
+    for (int si = 0; si < int(g_seeds.size()); ++si) { for (int ti = 0; ti < int(g_seeds[si].tags.size()); ++ti) { size_t n = g_seeds[si].ts.t[g_seeds[si].tags[ti]].size(); if (n > 8192) continue;
+        for (uint32_t f : g_seeds[si].fields[ti]) { uint32_t o = f >> 8; uint8_t w = uint8_t(f & 0xFF); if ((w == 2 || w == 4) && o + w <= n) g_tf.push_back({ si, ti, o, w }); } } }
+    r.ncases = g_tf.size(); r.case_alarm_s = 120;
+    r.describe = [](uint64_t i) { const TFPos &p = g_tf[i]; const Seed &s = g_seeds[p.seed]; JObj o; o.kv("seed", s.name).kv("table", tagstr(s.tags[p.tag])).kv("field_offset", p.off).kv("field_width", p.w).kv("deviation", "table shortened by c = 1..16 bytes and the field lowered by c (and by c/2, c/4, c/8 for counts of 2-, 4-, 8-byte records)"); return o; };
+    r.body = [](uint64_t i, ShardCtl &c) { const TFPos &p = g_tf[i]; const Seed &s = g_seeds[p.seed]; uint32_t tag = s.tags[p.tag]; const Bytes &orig = s.ts.t.at(tag);
+        uint32_t v = p.w == 2 ? be16(&orig[p.off]) : be32(&orig[p.off]);
+        for (uint32_t cut = 1; cut <= 16; ++cut) for (uint32_t div : { 1u, 2u, 4u, 8u }) { if (cut % div) continue; uint32_t dec = cut / div; if (v < dec || orig.size() < cut || p.off + p.w > orig.size() - cut) continue;
+            TableSet ts = s.ts; Bytes &b = ts.t[tag]; b.resize(orig.size() - cut); uint32_t nv = v - dec; if (p.w == 2) { b[p.off] = uint8_t(nv >> 8); b[p.off + 1] = uint8_t(nv); } else { b[p.off] = uint8_t(nv >> 24); b[p.off + 1] = uint8_t(nv >> 16); b[p.off + 2] = uint8_t(nv >> 8); b[p.off + 3] = uint8_t(nv); }
+            for (unsigned o : { 0u, 7u }) try_font(i, ts, o, c, mdesc(s, tag, p.off, p.w, nv) + " cut " + std::to_string(cut), o == 0); } };
+}
 // ---- container through the file path ----
 struct ContPos { int seed; uint32_t off; }; static std::vector<ContPos> g_cp; static std::vector<Bytes> g_sfnt;
 static void setup_container(Runner &r, const Tier &t) {
@@ -154,6 +170,7 @@ int main(int argc, char **argv) {
     { Sub s; s.name = "fields"; s.setup = setup_fields; s.budget_quick = 140; s.budget_thorough = 1500; s.counter_names = cn; subs.push_back(s); }
     { Sub s; s.name = "truncation"; s.setup = setup_trunc; s.budget_quick = 100; s.budget_thorough = 900; s.counter_names = cn; subs.push_back(s); }
     { Sub s; s.name = "container"; s.setup = setup_container; s.budget_quick = 60; s.budget_thorough = 300; s.counter_names = cn; subs.push_back(s); }
+    { Sub s; s.name = "truncation_with_field"; s.setup = setup_truncfield; s.budget_quick = 100; s.budget_thorough = 900; s.counter_names = cn; subs.push_back(s); }
     { Sub s; s.name = "compressed_payload"; s.setup = setup_zpayload; s.budget_quick = 100; s.budget_thorough = 900; s.counter_names = cn; subs.push_back(s); }
     { Sub s; s.name = "pairs"; s.setup = setup_pairs; s.budget_quick = 100; s.budget_thorough = 1500; s.counter_names = cn; subs.push_back(s); }
     return check_main(argc, argv, "C01", subs);
